@@ -56,6 +56,16 @@ CHECKS = {
         text="Requests of every failure stage (truncations, mutants, invalid documents, bad variable payloads, operation-name variants, resolver errors, nulls in non-null positions, non-finite floats) are issued under four configurations; no call may raise and every response must be well-formed.",
         note="The misspelt 'columne' key of syntax-error locations is a listed known finding (pinned by tests/test_graphql.py).",
         design="4/C10"),
+    "C05": dict(
+        technique="runtime monitor on validate_ast (never raises) over valid, rule-breaking, adversarial and text-mutated documents; documents reported valid are executed with a wrapper on Executor.resolve_field (ambiguity monitor: merged nodes denote one field with equal arguments) and a type-shape walk of the response, plus comparison with the reference executor when the IR is known",
+        text="Connects the two subsystems on every observed document: validator says yes => execution raises nothing and the data has the shape determined by selection sets and schema types; validator must terminate without raising on every parseable document produced.",
+        note="Worlds return values of the declared types (no nulls in non-null positions) as the statement requires; variables are fitted to the declared variable types.",
+        design="4/C05"),
+    "C06": dict(
+        technique="differential and metamorphic monitor on validate_ast: valid-by-construction documents must validate, 28 labelled single-rule violations must be rejected with an error from the labelled rule class (errors read per rule class through the library's own TypeInfoVisitor/ChainedVisitor), and verdict plus attribution must be invariant under permutation / renaming / trivia transforms",
+        text="Each observed validation of a (base, variant) family is decided against the construction label; verdict flips under validity-preserving transforms are violations with both documents as witness.",
+        note="Trusts the generator's validity-by-construction (type-directed, response keys derived from field+arguments) and the labelled operators; extra errors from other rules on invalid documents are ignored.",
+        design="4/C06"),
 }
 
 PENDING_REASON = "check not built yet in this session (planned: see DESIGN.md section 4); no claim is made"
